@@ -26,7 +26,8 @@ C_REC = Contract(requires=['1'], ensures=['1'], assigns='')
 
 def jobs(tier):
     out = []
-    N = 4
+    # quick: 3 time points (the check must finish within minutes); thorough: 4, which is what the i x j double loop of the edge step needs
+    N = 3 if tier == 'quick' else 4
     # both tiers run the same instance: the 16-bit / weights +-8 variant of the edge step did not finish within the time budget of this
     # sandbox (hours), so it is not offered as a check that could only ever time out
     d = {'U_BITS': 8, 'I_BITS': 8, 'WIDE_BITS': 16, 'XT_N': N, 'XT_R': 3}
@@ -73,7 +74,7 @@ def jobs(tier):
       if (k >= (size_t)n || k == (size_t)j || E[k][j] == idl_theory::inf() || th->_dists[i][k] == idl_theory::inf() || th->_dists[i][j] != th->_dists[i][k] + E[k][j]) { ok = false; why += " pred[" + std::to_string(i) + "][" + std::to_string(j) + "]=" + std::to_string(k) + " is not the last hop of a shortest path;"; } } }
   observed = show_matrix(th->_dists, n) + why; required = "closure of the old matrix plus the edge; predecessors = last hops";
 ''' % '62'},
-                   bounded='%d time points; finite weights in [-3, 3] plus the inf() sentinel (both tiers); no registered undecided constraints (the re-propagation loop is empty)' % N))
+                   bounded='%d time points (3 in quick, 4 in thorough); finite weights in [-3, 3] plus the inf() sentinel; no registered undecided constraints (the re-propagation loop is empty)' % N))
     out.append(lit_job(tier, c))
     out.append(resize_job(tier))
     out.extend(hops_jobs(tier, c))
@@ -84,7 +85,7 @@ def hops_jobs(tier, c_edge):
     """termination of the predecessor walks (the explanation loops of propagate(const lit&)) as an invariant instead of an assumption:
     (1) the edge step keeps the hop-count invariant spa_hops_ok for explicitly given new hop counts; (2) lemma: spa_hops_ok implies
     that every predecessor walk reaches its row's time point within XT_N - 1 hops."""
-    N = 4   # the i x j double loop of the edge step needs four different time points
+    N = 3 if tier == 'quick' else 4   # the i x j double loop of the edge step needs four different time points (thorough tier)
     d = {'U_BITS': 8, 'I_BITS': 8, 'WIDE_BITS': 16, 'XT_N': N, 'XT_R': 3}
     caps = {'vec_vec_I': N, 'vec_I': N, 'vec_vec_U': N, 'vec_U': N, 'vec_pair_U_U': 2 + 4 * N + 2 * N * N, 'map_pair_U_U_vec_idl_distancep': 1,
             'vec_idl_distancep': 1, 'map_pair_U_U_idl_distancep': 1, 'vec_lit': 2, 'vec_us': 2, 'vec_layer': 1, 'map_pair_U_U_I': 1, 'map_pair_U_U_U': 1,
@@ -93,7 +94,8 @@ def hops_jobs(tier, c_edge):
     c = Contract(requires=[r for r in c_edge.requires if 'spa_rec' not in r] + ['spa_hops_ok(self->_dists, self->_preds, xt_H)'],
                  ensures=[('noexcept', '__exc == 0'),
                           ('hop_count_invariant_kept', 'spa_hops_ok(self->_dists, self->_preds, spa_H_step(%s, self->_dists, xt_H, *from, *to))' % D0),
-                          ('WITNESS_an_improvement_through_both_legs_is_reachable', '!(*from == 1 && *to == 2 && self->_dists.e[0].e[3] != %s.e[0].e[3])' % D0)],
+                          (('WITNESS_an_improvement_through_both_legs_is_reachable', '!(*from == 1 && *to == 2 && self->_dists.e[0].e[3] != %s.e[0].e[3])' % D0) if N >= 4 else
+                           ('WITNESS_an_improvement_through_the_first_leg_is_reachable', '!(*from == 1 && *to == 2 && self->_dists.e[0].e[2] != %s.e[0].e[2])' % D0))],
                  assigns='__exc, self->_dists, self->_preds, self->base_theory.cnfl')
     HARN = ('void xt_harness(void)\n{\n  xt_init_globals();\n  struct smt_idl_theory th; th.dist_constrs.n = 0; th.base_theory.cnfl.n = 0; th.layers.n = 0; th.listening.n = 0;\n'
             '  { struct vec_vec_I ge; xt_E = ge; struct vec_vec_U gh; xt_H = gh; }\n  U_t *from; U_t *to; I_t *dist;\n  smt_idl_theory_propagate__U__U__I(&th, from, to, dist);\n}\n')
